@@ -523,10 +523,18 @@ class Checker:
             self.rej("C10.model-field", f"model field {ev.get('field')} != {exp_field}")
         if "allowed" in ev and ev["allowed"] is not None:
             exp = self.allowed_events(self.state)
-            if sorted(ev["allowed"]) != sorted(exp):
-                self.rej("C13.allowed-events", f"allowed_events {ev['allowed']} != {exp} in {self.state}")
             if len(set(ev["allowed"])) != len(ev["allowed"]):
                 self.rej("C13.allowed-events", f"allowed_events has duplicates {ev['allowed']}")
+            if sorted(ev["allowed"]) != sorted(exp):
+                self.rej("C13.allowed-events", f"allowed_events {ev['allowed']} != {exp} in {self.state}")
+            decl = [e for e in self.spec["events"] if e in exp]
+            if decl == exp:
+                self.stats["allowed_order_compared"] = self.stats.get("allowed_order_compared", 0) + 1
+                if ev["allowed"] != exp:
+                    self.rej("C13.allowed-events", f"allowed_events order {ev['allowed']} != declaration order {exp}")
+        if ev.get("events") is not None:
+            if sorted(ev["events"]) != sorted(self.spec["events"]):
+                self.rej("C13.events", f"events {ev['events']} != declared {self.spec['events']}")
         if "active" in ev and ev["active"] is not None:
             if ev["active"] != [self.state]:
                 self.rej("C10.one-active", f"is_active states {ev['active']} != [{self.state}]")
